@@ -43,7 +43,7 @@ pub fn check() -> Check {
     Check {
         id: "C09",
         level: "exploration",
-        rule: "each run draws a tree-shaped body from the seed (k threads with unequal step counts, spawn trees, mutex/join blocking that prunes subtrees, atomics-dependent extra steps so that later siblings have more children than earlier ones, optional shuttle::rand draws incl. draw-dependent branching), enumerates its maximal schedules with the independent prefix enumerator, and runs DfsScheduler with iteration bound None, < leaves, = leaves, > leaves and with ContinueAfter(n) (every n up to depth+1 for small trees, sampled n otherwise, optionally combined with a bound). Required: no duplicate, no omission, no unknown schedule, exactly min(bound, leaves) executions, DFS stops by itself, identical data stream in every execution. Distinct = (shape, scenario) hash; non-trivial = tree with at least 2 leaves",
+        rule: "each run draws a tree-shaped body from the seed (k threads with unequal step counts, spawn trees, mutex/join blocking that prunes subtrees, atomics-dependent extra steps so that later siblings have more children than earlier ones, optional shuttle::rand draws incl. draw-dependent branching, and in batch `burst` 65-200 draws in a row so that the data stream is long), enumerates its maximal schedules with the independent prefix enumerator, and runs DfsScheduler with iteration bound None, < leaves, = leaves, > leaves and with ContinueAfter(n) (every n up to depth+1 for small trees, sampled n otherwise, optionally combined with a bound). Required: no duplicate, no omission, no unknown schedule, exactly min(bound, leaves) executions, DFS stops by itself, identical data stream in every execution. Distinct = (shape, scenario) hash; non-trivial = tree with at least 2 leaves",
         assumptions: &[
             "the enumerator and DfsScheduler observe the same runtime (same Config), so the oracle is relative to the choice tree the runtime offers, not to an abstract semantics of the body",
             "the enumerator's data stream is seeded with the seed DfsScheduler reports for its first execution, so draw-dependent branching is identical on both sides",
@@ -82,6 +82,7 @@ fn batches(t: Tier) -> Vec<Batch> {
         Batch::new("dependent", t.pick(80, 1300), 4),
         Batch::new("rand", t.pick(80, 1300), 4),
         Batch::new("mixed", t.pick(80, 1300), 4),
+        Batch::new("burst", t.pick(24, 400), 4),
         Batch::new("large", t.pick(10, 48), 1),
     ]
 }
@@ -118,7 +119,7 @@ fn shape_cfg(batch: &str, rng: &mut Rng) -> ShapeCfg {
             c.bodies = (2, 3);
             c.steps = (1, 4);
         }
-        "rand" => {
+        "rand" | "burst" => {
             c.rand = true;
             c.steps = (1, 4);
             c.dependent = rng.chance(1, 2);
@@ -437,7 +438,7 @@ fn scenarios(rng: &mut Rng, leaves: &[Leaf], batch: &str) -> Vec<Scenario> {
         v.push(Scenario { bound: Some(0), continue_after: None });
     }
     let maxlen = leaves.iter().map(|l| l.items.len()).max().unwrap_or(0);
-    if batch != "large" && total <= 120 {
+    if batch != "large" && batch != "burst" && total <= 120 {
         for n in 0..=maxlen + 1 {
             v.push(Scenario { bound: None, continue_after: Some(n) });
         }
@@ -463,6 +464,17 @@ fn run(batch: &str, _idx: u64, seed: u64, tier: Tier) -> RunOut {
     let mut out = RunOut::default();
     let cfg = shape_cfg(batch, &mut rng);
     let mut shape = gen_shape(&mut rng, &cfg);
+    if batch == "burst" {
+        // a long data stream: 65..=200 draws in a row at the start of one body, so that every
+        // execution draws far more values than the few a tree-shaped body needs
+        let b = rng.below(shape.bodies.len());
+        let n = match rng.below(3) {
+            0 => 65 + rng.below(8),
+            1 => 120 + rng.below(16),
+            _ => 65 + rng.below(136),
+        };
+        shape.bodies[b].insert(0, Step::RandBurst(n));
+    }
     let cap = max_leaves(batch, tier);
     // enumerate; shrink the shape until the tree fits under the cap
     let (body, dseed, en) = loop {
